@@ -376,8 +376,6 @@ class ArgumentParser:
         # Suppress warnings for common arguments we don't care about.
         parser.add_argument("-O", dest=None)
         parser.add_argument("-o", dest=None)
-        parser.add_argument("-g", action="store_const", dest=None)
-        parser.add_argument("-c", action="store_const", dest=None)
         parser.add_argument("file", nargs="*")
 
         # Add additional options for this specific compiler.
@@ -401,6 +399,10 @@ class ArgumentParser:
             argv + self.compiler.options,
             namespace,
         )
+        # Suppress warnings for -g and -c. They are not registered with the
+        # parser because argparse would then reject any other option that
+        # begins with them (e.g. -g3, -ggdb, -ccbin, -coverage).
+        unrecognized = [u for u in unrecognized if u not in ["-g", "-c"]]
         if unrecognized:
             log.warning(f"Unrecognized arguments: '{' '.join(unrecognized)}'")
 
